@@ -246,7 +246,11 @@ def dtype(arr_or_dtype, /):
 
 
 def hypot(x1, x2, /):
-    return jnp.hypot(x1, x2)
+    # The derivative of hypot at (0, 0) is 0/0 = NaN. Differentiate a regular point
+    # instead and return a zero derivative there (e.g. output scales that vanish identically).
+    is_zero = (x1 == 0) & (x2 == 0)
+    x1_safe = jnp.where(is_zero, jnp.ones_like(x1), x1)
+    return jnp.where(is_zero, jnp.zeros_like(x1), jnp.hypot(x1_safe, x2))
 
 
 def cos(x, /):
